@@ -73,12 +73,285 @@ def rect_norm(n, r, args):
     minK = min(minK, maxK)
     return maxK, minK
 
+# ------------------------------------------------------------------ Coq correspondence (oracle replay)
+from fractions import Fraction as _Fr
+
+_TIE = _Fr(1, 10 ** 9)
+
+
+def _is_double(x):
+    try:
+        return _Fr(float(x)) == x
+    except OverflowError:
+        return False
+
+
+def _exact_sum(terms):
+    """every partial sum of the terms, in any order (and fused), is a double: all terms are multiples of one quantum 2^e
+    and the sum of moduli is below 2^53 quanta"""
+    ts = [t for t in terms if t != 0]
+    if not ts:
+        return True
+    if not all(_is_double(t) for t in ts):
+        return False
+    den = max(t.denominator for t in ts)                 # powers of two
+    ints = [abs(t.numerator) * (den // t.denominator) for t in ts]
+    g = min((n & -n) for n in ints)
+    return sum(ints) // g < 2 ** 53
+
+
+def _exact_prod(*fs):
+    """all partial products of the factors are doubles"""
+    import itertools
+    for k in range(1, len(fs) + 1):
+        for sub in itertools.combinations(fs, k):
+            p = _Fr(1)
+            for s in sub:
+                p *= s
+            if not _is_double(p):
+                return False
+    return True
+
+
+class _Replay:
+    """exact (Fraction) replay of the two routines from the recorded LAPACK answers; mirrors Model/Maxvol.v.  It is only
+    used to find out whether float round-off could decide a discrete choice of the implementation: `risky` is set when
+    an argmax has a runner-up, or a stopping test has a margin, within 1e-9 relative while the floats of the
+    implementation are not known to be exact (`exact`: every intermediate of every update so far is a double)."""
+
+    def __init__(self):
+        self.exact = True
+        self.risky = False
+
+    def argmax(self, vals):
+        b = 0
+        for k in range(1, len(vals)):
+            if vals[k] > vals[b]:
+                b = k
+        if not self.exact:
+            for k in range(len(vals)):
+                if k != b and vals[b] - vals[k] <= _TIE * abs(vals[b]):
+                    self.risky = True
+        return b
+
+    def gt(self, x, y, y_exact=True):
+        if not (self.exact and y_exact) and abs(x - y) <= _TIE * max(abs(x), abs(y)):
+            self.risky = True
+        return x > y
+
+    def maxvol(self, N, r, tol, max_iters, topk, ipiv, C0):
+        if N <= r:
+            return list(range(N)), [[_Fr(int(i == j)) for j in range(N)] for i in range(N)]
+        if tol < 1:
+            tol = _Fr(1)
+        if topk == -1 or topk > N:
+            topk = N
+        if topk < r:
+            topk = r
+        index = list(range(N))
+        for i in range(r):
+            index[i], index[ipiv[i]] = index[ipiv[i]], index[i]
+        C = [list(row) for row in C0]
+        iters = 0
+        while True:
+            if iters >= max_iters:      # the code still evaluates argmax and the comparison; they decide nothing then
+                break
+            k = self.argmax([abs(C[k // topk][k % topk]) for k in range(r * topk)])
+            i, j = divmod(k, topk)
+            if not self.gt(abs(C[i][j]), tol):
+                break
+            index[i] = j
+            row = list(C[i]); col = [C[p][j] for p in range(r)]
+            col[i] -= 1
+            alpha = -1 / C[i][j]
+            if self.exact:
+                ok = _is_double(alpha) and _is_double(col[i])
+                for p in range(r):
+                    for q in range(N):
+                        if not ok:
+                            break
+                        ok = _exact_prod(alpha, col[p], row[q]) and _exact_sum([C[p][q], alpha * col[p] * row[q]])
+                self.exact = ok
+            C = [[C[p][q] + alpha * col[p] * row[q] for q in range(N)] for p in range(r)]
+            iters += 1
+        return index[:r], [[C[p][q] for p in range(r)] for q in range(N)]
+
+    def rect(self, N, r, tol, maxK, min_add_K, minK, start_iters, identity, topk, ipiv, C0, tol_float):
+        if N <= r:
+            return list(range(N)), [[_Fr(int(i == j)) for j in range(N)] for i in range(N)]
+        tol2 = tol * tol
+        tol2_exact = _Fr(tol_float ** 2) == tol2
+        if maxK is None or maxK > N:
+            maxK = N
+        if maxK < r:
+            maxK = r
+        if minK is None or minK < r:
+            minK = r
+        if minK > N:
+            minK = N
+        if min_add_K is not None:
+            minK = max(minK, r + min_add_K)
+        if minK > maxK:
+            minK = maxK
+        if topk == -1 or topk > N:
+            topk = N
+        if topk < r:
+            topk = r
+        index = [0] * N
+        chosen = [True] * topk
+        tmp, C = self.maxvol(N, r, _Fr(1.05), start_iters, topk, ipiv, C0)
+        index[:r] = tmp
+        for t in tmp:
+            chosen[t] = False
+        rns = []
+        for t in range(topk):
+            s = sum(x * x for x in C[t]) if chosen[t] else _Fr(0)
+            if self.exact and chosen[t]:
+                f = float(np.linalg.norm(np.array([float(x) for x in C[t]]), 2) ** 2)
+                if _Fr(f) != s:
+                    self.exact = False
+            rns.append(s)
+        i = self.argmax([rns[t] if chosen[t] else _Fr(-1) for t in range(topk)])
+        K = r
+        while True:
+            if K < minK:
+                go = True
+            elif K < maxK:
+                go = self.gt(rns[i], tol2, tol2_exact)
+            else:
+                go = False
+            if not go:
+                break
+            index[K] = i
+            chosen[i] = False
+            c = list(C[i])
+            v = [sum(C[t][p] * c[p] for p in range(K)) for t in range(N)]
+            l = 1 / (1 + v[i])
+            if self.exact:
+                ok = _is_double(l) and _exact_sum([_Fr(1), v[i]])
+                for t in range(N):
+                    if not ok:
+                        break
+                    ok = (all(_is_double(C[t][p] * c[p]) for p in range(K)) and _exact_sum([C[t][p] * c[p] for p in range(K)])
+                          and _exact_prod(l, v[t]) and all(_exact_prod(l, v[t], c[p]) and
+                                                            _exact_sum([C[t][p], -l * v[t] * c[p]]) for p in range(K))
+                          and (t >= topk or (_exact_prod(l, v[t], v[t]) and _exact_sum([rns[t], -l * v[t] * v[t]]))))
+                self.exact = ok
+            C = [[C[t][p] - l * v[t] * c[p] for p in range(K)] + [l * v[t]] for t in range(N)]
+            rns = [(rns[t] - l * v[t] * v[t]) * (1 if chosen[t] else 0) for t in range(topk)]
+            i = self.argmax([rns[t] if chosen[t] else _Fr(-1) for t in range(topk)])
+            K += 1
+        if identity:
+            for p in range(K):
+                C[index[p]] = [_Fr(int(p == q)) for q in range(K)]
+        return index[:K], C
+
+
+def _trace_lapack(f, A, args):
+    """run the routine with scipy's LAPACK getters wrapped inside tntorch.maxvol: records ipiv of getrf, the info codes
+    and the coefficient matrix after the second trtrs (the state the Python loop starts from)"""
+    import tntorch.maxvol as mv
+    rec = {"ipiv": None, "C0": None, "ntr": 0, "info": [], "ngetrf": 0}
+    orig = mv.get_lapack_funcs
+
+    def glf(names, arrays=(), **kw):
+        fn = orig(names, arrays, **kw)
+        name = names if isinstance(names, str) else names[0]
+
+        def w(*a, **k):
+            out = fn(*a, **k)
+            if name == "getrf":
+                rec["ngetrf"] += 1
+                rec["ipiv"] = [int(x) for x in out[1]]; rec["info"].append(int(out[2]))
+            elif name == "trtrs":
+                rec["ntr"] += 1; rec["info"].append(int(out[-1]))
+                if rec["ntr"] == 2:
+                    rec["C0"] = np.array(a[1], dtype=np.float64, copy=True)
+            return out
+        return w
+    mv.get_lapack_funcs = glf
+    try:
+        with contextlib.redirect_stdout(io.StringIO()):
+            idx, C = f(A, **args)
+    finally:
+        mv.get_lapack_funcs = orig
+    return rec, np.asarray(idx), np.asarray(C)
+
+
+COQ_STATS = {"sent": 0, "skipped_tie": 0, "skipped_scope": 0, "exact_float_runs": 0}
+
+
+def _coq_term(case, res, max_n=8, max_r=4):
+    name = case["routine"]
+    if name not in ("py_maxvol", "py_rect_maxvol", "maxvol", "rect_maxvol") or not res.get("ok"):
+        return None
+    A = np.array(case["A"], dtype=np.float64)
+    if A.ndim != 2:
+        return None
+    n, r = A.shape
+    if n > max_n or r > max_r or r < 1:
+        COQ_STATS["skipped_scope"] += 1
+        return None
+    rect = "rect" in name
+    args = dict(RECT_DEFAULTS if rect else SQ_DEFAULTS); args.update(case["args"])
+    Ain = np.asfortranarray(A) if case.get("order") == "F" else np.ascontiguousarray(A)
+    try:
+        rec, idx, C = _trace_lapack(_routines()[name], Ain.copy(), case["args"])
+    except Exception:
+        return None
+    if C.ndim != 2 or not np.all(np.isfinite(C)) or [int(i) for i in idx.reshape(-1)] != res["idx"]:
+        return None
+    tall = n > r
+    if tall:
+        if rec["ngetrf"] != 1 or rec["ntr"] != 2 or rec["C0"] is None or not np.all(np.isfinite(rec["C0"])):
+            COQ_STATS["skipped_scope"] += 1
+            return None
+        ipiv = rec["ipiv"]; C0 = [[_Fr(float(x)) for x in row] for row in rec["C0"].tolist()]
+        if len(ipiv) < r or len(C0) != r or any(len(row) != n for row in C0):
+            COQ_STATS["skipped_scope"] += 1
+            return None
+    else:
+        ipiv = []; C0 = []
+    rp = _Replay()
+    topk = int(args["top_k_index"])
+    try:
+        if rect:
+            ridx, rC = rp.rect(n, r, _Fr(float(args["tol"])), args["maxK"], args["min_add_K"], args["minK"],
+                               int(args["start_maxvol_iters"]), bool(args["identity_submatrix"]), topk, ipiv, C0, float(args["tol"]))
+        else:
+            ridx, rC = rp.maxvol(n, r, _Fr(float(args["tol"])), int(args["max_iters"]), topk, ipiv, C0)
+    except ZeroDivisionError:
+        COQ_STATS["skipped_scope"] += 1
+        return None
+    if rp.risky:
+        COQ_STATS["skipped_tie"] += 1
+        return None
+    if rp.exact:
+        COQ_STATS["exact_float_runs"] += 1
+    qx = lambda x: qlit(_Fr(float(x)))
+    qm = lambda M: "[" + ";".join(coq_list(row, qx, "Q") for row in M) + "]"
+    qf = lambda M: "[" + ";".join(coq_list(row, lambda x: qlit(x), "Q") for row in M) + "]"
+    oz = lambda v: "None" if v is None else "(Some %s%%Z)" % zlit(int(v))
+    # the oracle's contract C0^T A[index0] = A is tested in Coq when getrf/trtrs reported success and the first
+    # top_k rows have full numerical column rank
+    tk = n if (topk == -1 or topk > n) else max(topk, r)
+    contract = bool(tall and all(i == 0 for i in rec["info"]) and np.linalg.matrix_rank(A[:tk]) == r)
+    Aq = qm(A.tolist()) if contract else "[]"
+    tail = "%s %s %s %s %s %s" % (coq_natlist(ipiv[:r]), qf(C0), "true" if contract else "false", Aq,
+                                   coq_natlist(res["idx"]), qm(C.tolist()))
+    COQ_STATS["sent"] += 1
+    if rect:
+        return "Rect %d %d %s %s %s %s %d %s %s%%Z %s" % (
+            n, r, qx(args["tol"]), oz(args["maxK"]), oz(args["min_add_K"]), oz(args["minK"]), int(args["start_maxvol_iters"]),
+            "true" if args["identity_submatrix"] else "false", zlit(topk), tail)
+    return "Sq %d %d %s %d %s%%Z %s" % (n, r, qx(args["tol"]), int(args["max_iters"]), zlit(topk), tail)
+
 
 class Prop:
     ID = "C17"
-    LEVEL = "exploration"
-    COQ_HEADER = ""
-    CHECK_FN = ""
+    LEVEL = "proof"
+    COQ_HEADER = "From TN Require Import Harness.H_C17.\nFrom Coq Require Import QArith ZArith List.\nImport ListNotations.\nOpen Scope nat_scope."
+    CHECK_FN = "check"
     RULE = ("matrices n x r with r in 1..10 and n in {1, r-1, r, r+1, r+2, 2r, 3r+1, 30, 60} (thorough: every n in 1..60), of 9 "
             "classes (Gaussian, small-integer, orthonormal columns from torch.linalg.qr as inside cross, duplicated rows, "
             "tiny rows, signed rows of the identity (ties), badly scaled, Vandermonde, sparse), C- and F-ordered; square routine "
@@ -86,12 +359,14 @@ class Prop:
             "with tol in {default 1, 1.05, 2, 0.5, 1.2}, maxK (None, <r, r.., n, >n), minK, min_add_K, start_maxvol_iters, "
             "identity_submatrix, plus the two call patterns used by cross (maxvol(Q), rect_maxvol(Q, maxK=r)). Arguments that "
             "are not listed in a case are left to the routine's defaults. A case is non-trivial when the matrix is tall with full "
-            "column rank and the routine returned; distinct = distinct (routine, class, n, r, arguments passed).")
+            "column rank and the routine returned; distinct = distinct (routine, class, n, r, arguments passed). Coq correspondence (oracle replay): every case with n <= 8, r <= 4 of py_maxvol / py_rect_maxvol (all 9 classes, tall / square / wide, rank-deficient, top_k_index, all argument combinations): LAPACK getrf/trtrs are intercepted inside tntorch.maxvol, ipiv and the coefficient matrix after the second trtrs are passed exactly (doubles as dyadic rationals) to Model/Maxvol.v, which replays clamping, pivot loop, argmax, stopping rule, updates and returns over Q; index vector must be equal and C within 1e-6 of the largest entry. Excluded (counted in COQ_STATS): runs in which an argmax runner-up or a stopping comparison lies within 1e-9 relative while the floats are not provably exact (every intermediate of every update a double), non-finite LAPACK answers, n > 8 or r > 4.")
     TRUSTED = ["post-conditions are evaluated by harness/props/c17.py with NumPy float64 (row/column-scaled backward-error tolerance "
                "1e-7 for C A[idx] = A, 1e-7 + 1e-14 cond(A[idx]) for C[idx] = I, 1e-6 relative for the dominance / row-norm bounds)",
                "whether the iteration cap may have been hit is decided from volumes: k swaps multiply |det A[idx]| by more than "
                "tol^k, with the start volume taken from scipy.linalg.lu_factor (same LAPACK getrf as the implementation)",
-               "numerical column rank by numpy.linalg.matrix_rank"]
+               "numerical column rank by numpy.linalg.matrix_rank",
+               "Coq side: LAPACK getrf/trtrs are oracles (their answers ipiv, C0 are recorded by wrapping scipy.linalg.get_lapack_funcs in tntorch.maxvol and replayed; the oracle contract C0^T A[index0] = A is re-checked in Coq to 1e-6 normwise when LAPACK reported success), BLAS ger is modelled by its exact formula a + alpha x y^T",
+               "the executable carrier QO (Q with Qred) is the unlawful twin of Qc, for which the field/order hypotheses of the theorems are proved (Proofs/MaxvolInst.v); float round-off of the implementation is not modelled (tolerance 1e-6, near-ties skipped)"]
     ASSUMPTIONS = ["the post-conditions are read with respect to the matrix as passed by the caller: a routine that overwrites its "
                    "input is reported (cross keeps using Q after the call)",
                    "matrices that are tall but numerically rank-deficient are outside the property's premise and only checked "
@@ -99,7 +374,9 @@ class Prop:
                    "top_k_index is not mentioned by the property text; for those cases dominance / norm bounds are required on "
                    "the first top_k_index rows only and chosen rows must lie among them",
                    "the lower bound K >= min(max(minK, r + min_add_K), maxK, n) is the documented meaning of minK / min_add_K"]
-    THEOREMS = []
+    THEOREMS = ["C17_argmax_max", "C17_argmax_first", "C17_pivots_perm", "C17_swap_reproduces", "C17_swap_identity",
+                "C17_swap_distinct", "C17_maxvol_post", "C17_kernel", "C17_rect_params", "C17_rect_step_reproduces",
+                "C17_rect_step_norms", "C17_rect_fuel_enough", "C17_rect_maxvol_post", "C17_not_tall"]
 
     # ------------------------------------------------------------------ generation
     def generate(self, rng, tier):
@@ -335,4 +612,4 @@ class Prop:
         return "%s;%s;%d;%d;%s;%s" % (t["routine"], t["kind"], t["n"], t["r"], json.dumps(case["args"], sort_keys=True), t["order"])
 
     def coq_term(self, case, res):
-        return None
+        return _coq_term(case, res)
